@@ -133,6 +133,25 @@ func init() {
 					c.res.fail(Failure{Class: "C14:" + s.name + ":encode-alpha", Desc: "alpha does not survive decode then ToRGBA64", Input: map[string]interface{}{"space": s.name, "alpha": a}, Got: fmt.Sprint(r64.A), Want: fmt.Sprint(a)})
 				}
 			}
+			// translucent colours of every concrete colour type that carries an alpha: decoded alpha is exactly
+			// A/65535 (A as reported by RGBA()) and linearising keeps it
+			for a := 1; a < 256; a++ {
+				for _, in := range []color.Color{color.NYCbCrA{YCbCr: color.YCbCr{Y: uint8(rng.Intn(256)), Cb: uint8(rng.Intn(256)), Cr: uint8(rng.Intn(256))}, A: uint8(a)},
+					color.Alpha{A: uint8(a)}, color.Alpha16{A: uint16(a)*257 - uint16(a%3)}, color.NRGBA{R: 200, G: 100, B: 50, A: uint8(a)}, color.RGBA{R: uint8(a / 2), G: uint8(a / 3), B: uint8(a), A: uint8(a)},
+					translucentCustom{uint16(a) * 100, uint16(a) * 257}} {
+					_, _, _, a16 := in.RGBA()
+					_, _, _, al := s.encoded(in)
+					lin := s.linearise(in)
+					c.res.count("translucent-"+s.name, fmt.Sprintf("%s %T %d", s.name, in, a), true)
+					if math.Float32bits(al) != math.Float32bits(float32(a16)/65535) || lin.A != uint16(a16) {
+						c.res.fail(Failure{Class: "C14:" + s.name + ":decode-alpha", Desc: fmt.Sprintf("alpha of a translucent %T is not decoded as exactly A/65535 or not kept by LineariseColor", in),
+							Input: map[string]interface{}{"space": s.name, "colour": fmt.Sprintf("%T%v", in, in)}, Got: fmt.Sprint(al, lin.A), Want: fmt.Sprint(float32(a16)/65535, a16)})
+					}
+					if lin.R > lin.A || lin.G > lin.A || lin.B > lin.A {
+						c.res.fail(Failure{Class: "C14:" + s.name + ":premultiplied", Desc: fmt.Sprintf("linearising a valid premultiplied %T gave channel > alpha", in), Input: map[string]interface{}{"space": s.name, "colour": fmt.Sprintf("%T%v", in, in)}, Got: fmt.Sprint(lin), Want: "channels <= alpha"})
+					}
+				}
+			}
 			// fully transparent pixels of every concrete colour type, whatever their colour bytes say
 			for k := 0; k < 400; k++ {
 				x, y, z := uint16(rng.Intn(65536)), uint16(rng.Intn(65536)), uint16(rng.Intn(65536))
@@ -238,4 +257,11 @@ func quantRef(v float32, m int) uint32 {
 		return uint32(m)
 	}
 	return uint32(float32(v*float32(m) + 0.5))
+}
+
+// a colour type the library cannot know, translucent and validly premultiplied
+type translucentCustom struct{ v, a uint16 }
+
+func (c translucentCustom) RGBA() (uint32, uint32, uint32, uint32) {
+	return uint32(c.v), uint32(c.v / 2), 0, uint32(c.a)
 }
